@@ -1,5 +1,6 @@
 From Coq Require Import ZArith Bool List.
-From KD Require Import Model.Values Model.Compare Model.Validate Proofs.Compare Proofs.Validate Properties.C02.
+From KD Require Import Model.Values Model.Compare Model.Validate Proofs.Compare Proofs.Validate
+     Model.Perm Model.Glob Model.Broker Model.BrokerRun Proofs.Broker Proofs.Store Proofs.StoreDomain Properties.C02.
 Check c02_validate_iff_domain : forall m v,
   is_na v = false -> (validate_datapoint_value m v = None <-> in_domainb m v = true).
 Check c02_domain_meaning : forall m v,
@@ -9,3 +10,16 @@ Check c02_na_only_exception : forall m v,
   validate_datapoint_value m v = None -> v = VNA \/ in_domainb m v = true.
 Check c02_na_iff_no_allowed : forall m,
   validate_datapoint_value m VNA = None <-> vm_allowed m = None.
+Check c02_store_inv : forall h id e,
+  lookup_id (entries (st_db (run_history h))) id = Some e ->
+  in_domain_or_na (vmeta_of (e_meta e)) (d_value (e_dp e)) /\
+  in_domain_or_na (vmeta_of (e_meta e)) (d_value (e_lag e)) /\
+  (forall d, e_target e = Some d -> in_domain_or_na (vmeta_of (e_meta e)) (d_value d)).
+Check c02_read_in_domain : forall h p now id e,
+  read_entry (st_db (run_history h)) p now id = inl e ->
+  in_domain_or_na (vmeta_of (e_meta e)) (d_value (e_dp e)) /\
+  (forall d, e_target e = Some d -> in_domain_or_na (vmeta_of (e_meta e)) (d_value d)).
+Check c02_forwarded_validated : forall st p id v st',
+  actuate st p id v = (st', None) ->
+  exists e, read_entry (st_db st) p (st_now st) id = inl e /\
+            validate_actuator_value (vmeta_of (e_meta e)) v = None.
